@@ -52,11 +52,42 @@ def _builder(t, fns, sel_f, sel_b):
                                   "selected_block": NONE if sel_b is None else ("some", sel_b)})
 
 
+def _harvest(ctx):
+    """the largest small integer the hand-written Builder code compares / indexes with (0 if none above 1)"""
+    def build():
+        from ..tree import small_literals
+        fs = [f for f in ctx.rspirv.fns(BLD, "Builder")]
+        raw = ctx.raw
+        lits = set()
+        for f in fs:
+            cand = [x for x in raw.byname.get(f["name"], []) if "dr/build/mod.rs" in x["file"]]
+            if cand:
+                lits |= small_literals(f["body"])
+        return max(lits) if lits else 0
+    return ctx.memo("buildeval_harvest", build)
+
+
 def representatives(ctx, state):
     """concrete builders of the abstract state, with a description"""
     t = evalsum._templates(ctx)
     F, B = state
     out = []
+    k = _harvest(ctx)
+    if k >= 2:
+        # the code counts up to k: add a module with k+1 functions of k+1 blocks (k+1 instructions each), the last ones selected
+        n = k + 1
+        big = lambda: [_function(t, n, True) for _ in range(n - 1)] + [_function(t, n)]
+        for fobj in big():
+            for b in fobj[2]["blocks"][1]:
+                b[2]["instructions"] = ("list", [("sym", "INST%d" % i) for i in range(n)])
+        if (F, B) == (None, None):
+            out.append(("%d functions, none selected" % n, _builder(t, big(), None, None)))
+        elif (F, B) == ("valid", None):
+            out.append(("function %d of %d selected" % (n - 1, n), _builder(t, big(), n - 1, None)))
+        elif (F, B) == ("valid", "valid"):
+            out.append(("function %d of %d, block %d of %d selected" % (n - 1, n, n - 1, n), _builder(t, big(), n - 1, n - 1)))
+        elif (F, B) == ("valid", "stale"):
+            out.append(("function %d of %d with block index %d selected" % (n - 1, n, n), _builder(t, big(), n - 1, n)))
     if (F, B) == (None, None):
         out.append(("empty module", _builder(t, [], None, None)))
         out.append(("one finished function", _builder(t, [_function(t, 1, True)], None, None)))
